@@ -758,9 +758,9 @@ Section Parse.
         + rewrite Eres. reflexivity.
         + discriminate.
         + clear - Hf'. fuel_tac. }
-    cbn [seq1_toks gsub1_loop].
+    cbn [seq1_toks gsub1_loop]. cbn [seq1_toks] in Hf.
     set (rl := if (2 <? length ((f, t) :: rest'))%nat then S (run_len f rest' (delta16 f t)) else 1%nat) in *.
-    cbn [app]. destruct (2 <? rl)%nat eqn:Erl.
+    cbn [app] in *. destruct (2 <? rl)%nat eqn:Erl.
     - (* a range *)
       assert (Erl' : rl = S (run_len f rest' (delta16 f t))).
       { unfold rl in *. destruct (2 <? length ((f, t) :: rest'))%nat; auto. cbn in Erl. discriminate. }
@@ -770,7 +770,7 @@ Section Parse.
       assert (En : nth (rl - 1) ((f, t) :: rest') (f, t) = (f + N.of_nat n, t + N.of_nat n)).
       { rewrite <- (nth_firstn_lt _ (rl - 1) rl) by lia. rewrite Hfr.
         rewrite nth_seq_up_combine by lia. f_equal; f_equal; lia. }
-      rewrite En.
+      rewrite En in *.
       assert (Hin : In (f + N.of_nat n, t + N.of_nat n) ((f, t) :: rest')).
       { rewrite <- En. apply nth_In. cbn [length]. lia. }
       rewrite Forall_forall in Hm. destruct (Hm _ Hin) as [Hfl Htl]. cbn [fst snd] in Hfl, Htl.
@@ -779,9 +779,6 @@ Section Parse.
       rewrite rgl_range; [|lia|auto|reflexivity|clear - Hf; cbn [length] in Hf; fuel_tac].
       unfold bind at 1. rewrite required_hit by reflexivity.
       unfold bind at 1.
-      assert (Esk : seq1_toks U F k (skipn rl ((f, t) :: rest')) false l ++ t0 :: rest
-                    = match seq1_toks U F k (skipn rl ((f, t) :: rest')) false l ++ t0 :: rest with
-                      | x :: r => x :: r | [] => [] end) by (destruct (_ ++ _); reflexivity).
       assert (Hstop' : exists tn tsn, seq1_toks U F k (skipn rl ((f, t) :: rest')) false l ++ t0 :: rest = tn :: tsn
                                       /\ is_stop (ttyp tn) = true).
       { destruct (skipn rl ((f, t) :: rest')) as [|e' mm''] eqn:Es.
@@ -792,9 +789,7 @@ Section Parse.
             rewrite Es in L. cbn in L. lia.
           + rewrite seq1_toks_false. cbn [app]. eexists. eexists. split; reflexivity. }
       destruct Hstop' as (tn & tsn & Etn & Hstn). rewrite Etn.
-      rewrite rgl_range; [|lia|auto|auto|clear - Hf Etn; cbn [length] in Hf; rewrite !app_length in Hf;
-                                         cbn [length] in Hf; rewrite <- app_length in Hf; rewrite Etn in Hf;
-                                         cbn [length] in Hf; lia].
+      rewrite rgl_range; [|lia|auto|auto|clear - Hf; cbn [length] in Hf; fuel_tac].
       rewrite <- Etn.
       replace (N.to_nat (f + N.of_nat n - f)) with n by lia.
       replace (N.to_nat (t + N.of_nat n - t)) with n by lia.
@@ -818,7 +813,7 @@ Section Parse.
         assert (Hin' : In x (map fst (firstn rl ((f, t) :: rest')))).
         { rewrite Hfr. rewrite map_fst_combine by (rewrite !seq_up_length; reflexivity). exact Hx. }
         apply in_map_iff in Hin'. destruct Hin' as (e & Ee & Hine). subst x.
-        apply Hres; auto. apply (firstn_In _ rl). exact Hine.
+        apply Hres; auto. rewrite <- (firstn_skipn rl ((f, t) :: rest')). apply in_or_app. left. exact Hine.
     - (* a single mapping *)
       cbn [app]. unfold bind at 1.
       destruct fu as [|fu]; [exfalso; clear - Hf; cbn [length] in Hf; fuel_tac|].
@@ -845,5 +840,84 @@ Section Parse.
           apply in_map. exact He.
       + rewrite <- app_assoc. reflexivity.
       + clear - Hf. cbn [length] in Hf. fuel_tac.
+  Qed.
+
+  Lemma read_gsub1_gen : forall mm sub fl l fuel t0 rest,
+    flags_ok fl = true -> mm <> [] -> ascending (map fst mm) -> Forall pair_ok mm ->
+    build_gsub1 mm = sub -> ends_list t0 = true ->
+    (length (flag_toks fl l ++ seq1_toks U F (length mm) mm true l ++ t0 :: rest) < fuel)%nat ->
+    read_gsub1 F endl fuel (tk TColon [58] l :: flag_toks fl l ++ seq1_toks U F (length mm) mm true l ++ t0 :: rest)
+    = POk (mkLookup 1 fl [sub], t0 :: rest).
+  Proof.
+    intros mm sub fl l fuel t0 rest Hfl Hn Ha Hm Hb Ht Hf. unfold read_gsub1.
+    destruct mm as [|e mm']; [congruence|].
+    unfold bind at 1. rewrite header_ok'; auto; [| |clear - Hf; fuel_tac].
+    2:{ destruct (seq1_toks_head (length mm') e mm' l) as (th & tts & Eh & Ah).
+        cbn [length]. rewrite Eh. cbn [app]. eauto. }
+    unfold bind at 1.
+    rewrite (gsub1_loop_ok (length (e :: mm')) (e :: mm') l fuel [] t0 rest); auto.
+    - cbn [app is_nil]. unfold ret, mk_lookup. rewrite Hb. reflexivity.
+    - intros d e0 [].
+    - clear - Hf. fuel_tac.
+  Qed.
+
+  Lemma read_gsub1_1_ok : forall cov delta fl l fuel t0 rest,
+    flags_ok fl = true -> sub_wf F (Gsub1_1 cov delta) = true -> ends_list t0 = true ->
+    (length (flag_toks fl l ++ sub_toks U F (Gsub1_1 cov delta) l ++ t0 :: rest) < fuel)%nat ->
+    read_gsub1 F endl fuel (tk TColon [58] l :: flag_toks fl l ++ sub_toks U F (Gsub1_1 cov delta) l ++ t0 :: rest)
+    = POk (mkLookup 1 fl [Gsub1_1 cov delta], t0 :: rest).
+  Proof.
+    intros cov delta fl l fuel t0 rest Hfl W Ht Hf. cbn [sub_wf] in W. split_wf W.
+    assert (Ha : ascending cov) by (apply ascendingb_spec; assumption).
+    assert (Hc : Forall (fun g => g < num_glyphs F) cov) by (apply gids_ok_forall; assumption).
+    assert (Hd : Forall (fun g => g < num_glyphs F) (map (fun k => (k + delta) mod 65536) cov))
+      by (apply gids_ok_forall; assumption).
+    assert (Hdl : delta < 65536) by lia.
+    assert (Hn : cov <> []) by (destruct cov; [discriminate|congruence]).
+    destruct HF_all as (Hnum & _).
+    unfold sub_toks in *. cbv zeta in *.
+    rewrite stable_sort_sorted in * by (apply (ascending_ss_map (fun k => (k + delta) mod 65536)); exact Ha).
+    set (mm := map (fun k => (k, (k + delta) mod 65536)) cov) in *.
+    assert (Ek : map fst mm = cov).
+    { unfold mm. rewrite map_map. cbn [fst]. apply map_id. }
+    apply read_gsub1_gen; auto.
+    - unfold mm. destruct cov; [congruence|discriminate].
+    - rewrite Ek. exact Ha.
+    - unfold mm. clear - Hc Hd. induction cov; cbn in *; constructor.
+      + inversion Hc; inversion Hd; subst. split; auto.
+      + inversion Hc; inversion Hd; subst. auto.
+    - unfold build_gsub1. rewrite Ek. rewrite sort_uniq_ascending by auto.
+      assert (Ecd : forall k, k < 65536 -> delta16 k ((k + delta) mod 65536) = delta).
+      { intros k Hk. unfold delta16. lia. }
+      assert (Hc6 : Forall (fun g => g < 65536) cov) by (eapply Forall_impl; [|exact Hc]; intros; cbn in *; lia).
+      destruct cov as [|g cov']; [congruence|]. unfold mm. cbn [map const_delta].
+      inversion Hc6 as [|? ? Hg6 Hc6']; subst. rewrite (Ecd g) by auto.
+      assert (Ecs : forallb (fun p : N * N => delta16 (fst p) (snd p) =? delta)
+                      (map (fun k => (k, (k + delta) mod 65536)) cov') = true).
+      { apply forallb_forall. intros p Hp. apply in_map_iff in Hp. destruct Hp as (k & E & Hk). subst p.
+        cbn [fst snd]. rewrite Ecd; [apply N.eqb_refl|]. rewrite Forall_forall in Hc6'. auto. }
+      rewrite Ecs. reflexivity.
+  Qed.
+
+  Lemma read_gsub1_2_ok : forall cov subst fl l fuel t0 rest,
+    flags_ok fl = true -> sub_wf F (Gsub1_2 cov subst) = true -> ends_list t0 = true ->
+    (length (flag_toks fl l ++ sub_toks U F (Gsub1_2 cov subst) l ++ t0 :: rest) < fuel)%nat ->
+    read_gsub1 F endl fuel (tk TColon [58] l :: flag_toks fl l ++ sub_toks U F (Gsub1_2 cov subst) l ++ t0 :: rest)
+    = POk (mkLookup 1 fl [Gsub1_2 cov subst], t0 :: rest).
+  Proof.
+    intros cov subst fl l fuel t0 rest Hfl W Ht Hf. cbn [sub_wf] in W. split_wf W.
+    assert (Ha : ascending cov) by (apply ascendingb_spec; assumption).
+    assert (Hc : Forall (fun g => g < num_glyphs F) cov) by (apply gids_ok_forall; assumption).
+    assert (Hd : Forall (fun g => g < num_glyphs F) subst) by (apply gids_ok_forall; assumption).
+    assert (Hl : length cov = length subst) by (apply Nat.eqb_eq; assumption).
+    match goal with Hx : negb (const_delta _) = true |- _ => apply negb_true_iff in Hx; rename Hx into Hcd end.
+    unfold sub_toks in *. cbv zeta in *.
+    rewrite stable_sort_sorted in * by (apply ascending_ss_combine; exact Ha).
+    assert (Hn : combine cov subst <> []) by (destruct (combine cov subst); [discriminate|congruence]).
+    apply read_gsub1_gen; auto.
+    - rewrite map_fst_combine by auto. exact Ha.
+    - apply (Forall_combine (fun g => g < num_glyphs F) (fun g => g < num_glyphs F)); auto.
+    - unfold build_gsub1. rewrite Hcd. rewrite map_fst_combine by auto.
+      rewrite sort_uniq_ascending by auto. rewrite map_get_combine by auto. reflexivity.
   Qed.
 End Parse.
